@@ -301,6 +301,10 @@ class Lifecycle:
                         return r
                 if results and all(r[0] == "given" for r in results):
                     return ("given",)
+                # an accessor that hands out an attribute of the same object
+                attrs = {r[1] for r in results if r[0] == "attr"}
+                if len(attrs) == 1 and all(r[0] in ("attr", "given") for r in results):
+                    return ("attr", next(iter(attrs)))
             return ("unknown",)
         if isinstance(expr, ast.Attribute):
             if isinstance(expr.value, ast.Name) and self.ctx.res._is_self(f, expr.value):
